@@ -177,6 +177,13 @@ def xexec (A : Algs) (wl : Int64) (x : XState) : List Step → Option XState
 
 def xinit : XState := {}
 
+/-- `CommonLoop::exitLoop(wait)` on the exit-timer slot with ANY signed millisecond count (round 5): the pending exit timer is
+disabled and deleted; `wait.count() == 0` stops the loop at once (second component), every other count — negative ones
+included — creates, initialises (one-shot) and enables a new exit timer.  For counts ≥ 0 this is the script
+`exitLoopActs slot w` of the abstract model (`C02_wide_exit_is_slot_script`). -/
+def xExitLoop (A : Algs) (x : XState) (slot : Nat) (w : Int64) : XState × Bool :=
+  if w == 0 then ((xDisable A x slot).1, true) else ((xEnable A (xInit A x slot w true).1 slot).1, false)
+
 /-! ### the millisecond counts of an op list fit a non-negative `long` (decidable) -/
 
 mutual
